@@ -307,6 +307,70 @@ func c05TickLines(tr *Trace, r *Rng, n int) {
 	}
 }
 
+// edge prices for the curve functions: below MinPoolPrice / above MaxPoolPrice (the clamps), one unit of the last decimal
+// beside the pool price (dx not positive although price < Price(): the pool price is a rounded quotient)
+func c05EdgePrice(tr *Trace, r *Rng, price sdkmath.LegacyDec, poolPrice func() sdkmath.LegacyDec) sdkmath.LegacyDec {
+	switch r.Intn(40) {
+	case 0:
+		tr.Count("edge-price:below-min-pool-price")
+		return sdkmath.LegacyNewDecWithPrec(int64(1+r.Intn(9)), 16)
+	case 1:
+		tr.Count("edge-price:above-max-pool-price")
+		return amm.MaxPoolPrice.MulInt64(int64(2 + r.Intn(5)))
+	case 2, 3, 4:
+		var pp sdkmath.LegacyDec
+		if panicked, _ := try(func() { pp = poolPrice() }); panicked {
+			return price
+		}
+		tr.Count("edge-price:beside-pool-price")
+		return pp.Add(sdkmath.LegacyNewDecWithPrec(int64(r.Intn(5)-2), 18))
+	}
+	return price
+}
+
+// directed: reserves / prices at which the amount exceeds MaxCoinAmount (the cap), basic and ranged
+func c05PoolCapLines(tr *Trace) {
+	rx, ry := c05Pow10(35), c05Pow10(20)
+	bp := amm.NewBasicPool(rx, ry, sdkmath.OneInt())
+	minP, maxP := c05Dec("100000000000000"), c05Dec("10000000000000000")
+	for _, ps := range []string{"0.00000000000001", "0.0000000000000005", "1000000000000000", "999999999999999"} {
+		price := c05Dec(ps)
+		for _, fn := range []string{"bo", "bt", "su", "st"} {
+			out, rout := "panic", "panic"
+			try(func() {
+				switch fn {
+				case "bo":
+					out = bp.BuyAmountOver(price, true).String()
+				case "bt":
+					out = bp.BuyAmountTo(price).String()
+				case "su":
+					out = bp.SellAmountUnder(price, true).String()
+				case "st":
+					out = bp.SellAmountTo(price).String()
+				}
+			})
+			tr.Line("amm.bp", fn, rx.String(), ry.String(), c05Raw(price), out)
+			try(func() {
+				rp := amm.NewRangedPool(rx, ry, sdkmath.OneInt(), minP, maxP)
+				switch fn {
+				case "bo":
+					rout = rp.BuyAmountOver(price, true).String()
+				case "bt":
+					rout = rp.BuyAmountTo(price).String()
+				case "su":
+					rout = rp.SellAmountUnder(price, true).String()
+				case "st":
+					rout = rp.SellAmountTo(price).String()
+				}
+			})
+			tr.Line("amm.rp", fn, rx.String(), ry.String(), c05Raw(minP), c05Raw(maxP), c05Raw(price), rout)
+			if out == amm.MaxCoinAmount.String() || rout == amm.MaxCoinAmount.String() {
+				tr.Count("pool:amount-capped")
+			}
+		}
+	}
+}
+
 // basic pools: the curve functions and the order generation of PoolBuyOrders / PoolSellOrders on real BasicPools
 func c05PoolLines(tr *Trace, r *Rng, n int) {
 	list := func(os []amm.Order) string {
@@ -354,6 +418,7 @@ func c05PoolLines(tr *Trace, r *Rng, n int) {
 			if r.Chance(10) {
 				price = price.Add(sdkmath.LegacyNewDecWithPrec(int64(r.Intn(3)-1), 18))
 			}
+			price = c05EdgePrice(tr, r, price, func() sdkmath.LegacyDec { return pool.Price() })
 			for _, fn := range []string{"price", "bo", "su", "bt", "st"} {
 				out := "panic"
 				try(func() {
@@ -885,6 +950,7 @@ func TestC05(t *testing.T) {
 	}
 
 	c05TickLines(tr, rng, scale(3000, 60000))
+	c05PoolCapLines(tr)
 	c05PoolLines(tr, rng, scale(1500, 30000))
 	c05RangedLines(tr, rng, scale(400, 20000))
 
